@@ -357,6 +357,9 @@ class Interp:
 
     def sat_possible(self, cond=None):
         """False only if the path condition (plus cond) is certainly unsatisfiable."""
+        from .solve import over_budget
+        if over_budget():
+            return True
         self.asolver.set("timeout", 3000)
         try:
             if cond is None:
@@ -1140,13 +1143,20 @@ def _cmp(op, a, b):
     raise Unsupported("comparison %s" % type(op).__name__)
 
 
+TRUNCATED = []
+
+
 # ------------------------------------------------------------------------------ path exploration
 def explore(run, registry, opts=None, max_paths=4000, initial=None):
     """run(I) -> outcome. Enumerates all feasible paths. Returns list of (I, outcome).
     initial: a decision prefix (a shard of the top-level case split); only paths extending it are explored."""
     results = []
     stack = [list(initial or [])]
+    from .solve import over_budget
     while stack:
+        if over_budget() and results:
+            TRUNCATED.append(len(stack))          # unexplored alternatives: reported as undecided, never as held
+            break
         prefix = stack.pop()
         I = Interp(prefix, registry, opts)
         try:
